@@ -316,14 +316,15 @@ Proof.
 Qed.
 (* one iteration of parafac on data: whatever the solve oracle answers, the value error_calc computes after the sweep - through the
    MTTKRP shortcut when a mode was updated, explicitly when none was - is the explicit squared residual of the UPDATED factors *)
-Theorem parafac_iteration_reports_true_error solve (X : tensor F) R w ms fs :
+Theorem parafac_iteration_reports_true_error solve (X : tensor F) R w card ms fs :
   0 < length (shape X) -> length fs = length (shape X) -> (ms = [] \/ last ms 0 = length (shape X) - 1) ->
-  parafac_iteration_error Op solve X R w ms fs
-  = err_explicit Op X (cp_tensor_entry Op R w (fst (data_sweep Op solve X R w ms fs None))) None None.
+  parafac_iteration_error Op solve X R w card ms fs
+  = (let fs' := fst (data_sweep Op solve X R w ms fs None) in
+     err_explicit Op X (cp_tensor_entry Op R w fs') (sparse_of Op X (cp_tensor_entry Op R w fs') card None) None).
 Proof.
   intros Hs HL Hms. unfold parafac_iteration_error.
   set (res := data_sweep Op solve X R w ms fs None).
-  rewrite (error_calc_every_branch X R w (fst res) None None (snd res)); [reflexivity | exact Hs | unfold res; now rewrite data_sweep_length |].
+  rewrite (error_calc_every_branch X R w (fst res) card None (snd res)); [reflexivity | exact Hs | unfold res; now rewrite data_sweep_length |].
   intros Mt HMt i r Hi Hr. unfold res in *.
   destruct Hms as [-> | Hlast]; [cbn in HMt; discriminate|].
   destruct (exists_last (l := ms)) as (ms0 & n & ->); [intros ->; cbn in HMt; discriminate|].
@@ -334,21 +335,22 @@ Lemma last_cons_indep {A} (l : list A) : forall a d d', last (a :: l) d = last (
 Proof. induction l as [|b l IH]; intros a d d'; [reflexivity|]. change (last (b :: l) d = last (b :: l) d'). apply IH. Qed.
 (* ... iterated: every value of the list is the explicit squared residual (and squared norm) of the factors at the end of its iteration,
    and the returned factors are those of the last iteration *)
-Theorem parafac_data_loop_reports_true_errors solve (X : tensor F) R w ms :
+Theorem parafac_data_loop_reports_true_errors solve (X : tensor F) R w card ms :
   0 < length (shape X) -> (ms = [] \/ last ms 0 = length (shape X) - 1) ->
   forall n it fs errs, length fs = length (shape X) ->
-  snd (parafac_data_loop Op solve X R w ms n it fs errs)
-  = errs ++ map (fun fs_j => err_explicit Op X (cp_tensor_entry Op R w fs_j) None None) (parafac_data_states Op solve X R w ms n it fs) /\
-  fst (parafac_data_loop Op solve X R w ms n it fs errs) = last (parafac_data_states Op solve X R w ms n it fs) fs.
+  snd (parafac_data_loop Op solve X R w card ms n it fs errs)
+  = errs ++ map (fun fs_j => err_explicit Op X (cp_tensor_entry Op R w fs_j) (sparse_of Op X (cp_tensor_entry Op R w fs_j) card None) None)
+                (parafac_data_states Op solve X R w ms n it fs) /\
+  fst (parafac_data_loop Op solve X R w card ms n it fs errs) = last (parafac_data_states Op solve X R w ms n it fs) fs.
 Proof.
   intros Hs Hms. induction n as [|n IH]; intros it fs errs HL; cbn [parafac_data_loop parafac_data_states map last].
   - now rewrite app_nil_r.
   - set (res := data_sweep Op (solve it) X R w ms fs None).
     assert (HL' : length (fst res) = length (shape X)) by (unfold res; now rewrite data_sweep_length).
-    destruct (IH (S it) (fst res) (errs ++ [error_calc_model Op X R w (fst res) None None (snd res)]) HL') as [H1 H2].
+    destruct (IH (S it) (fst res) (errs ++ [error_calc_model Op X R w (fst res) card None (snd res)]) HL') as [H1 H2].
     split.
     + rewrite H1, <- app_assoc. cbn [app]. do 2 f_equal.
-      exact (parafac_iteration_reports_true_error (solve it) X R w ms fs Hs HL Hms).
+      exact (parafac_iteration_reports_true_error (solve it) X R w card ms fs Hs HL Hms).
     + rewrite H2. destruct (parafac_data_states Op solve X R w ms n (S it) (fst res)) as [|a l]; [reflexivity|].
       change (last (a :: l) (fst res) = last (a :: l) fs). apply last_cons_indep.
 Qed.
